@@ -131,3 +131,31 @@ Example C12_mirror_domain_inhabited :
   typeorder_h wh (Uni [Cls 1; Cls 2]) (Cls 1) = Some MORE /\
   typeorder_h wh (Cls 1) (Uni [Cls 1; Cls 2]) = Some LESS.
 Proof. vm_compute. repeat split; reflexivity. Qed.
+
+(* ---- leaf tie for the __type_order__ hooks: the decisions of Union / Intersection / DependentType.__type_order__ as
+   regenerated from /repo's current source on every run (Gen/Leaf.v), with the calls they make put back in, ARE the
+   hooks of the type-order model ---- *)
+From OvldV Require Import Proofs.LeafDep.
+
+Theorem C12_leaf_union_hook : forall tord subck ts o,
+  hook_order tord subck (Uni ts) o =
+    omap (fun rs => Some (union_order_src (filter (fun r => negb (order_eqb r NONE)) rs))) (omapM (fun x => tord x o) ts).
+Proof. exact union_hook_decides. Qed.
+Print Assumptions C12_leaf_union_hook.
+
+Theorem C12_leaf_inter_hook : forall tord subck ts o,
+  hook_order tord subck (Int ts) o =
+    omap (fun rs => Some (inter_order_src (filter (fun r => negb (order_eqb r NONE)) rs))) (omapM (fun x => tord x o) ts).
+Proof. exact inter_hook_decides. Qed.
+Print Assumptions C12_leaf_inter_hook.
+
+Theorem C12_leaf_dep_hook : forall tord subck t o,
+  dep_order tord subck t o =
+    if is_dep o then
+      omap (fun bo => Some (dep_order_src true bo (dep_lt t o) (dep_lt o t) false false)) (tord (dep_bound t) (dep_bound o))
+    else
+      obind (subck o (dep_bound t)) (fun s1 =>
+        if s1 then Some (Some (dep_order_src false SAME false false true false))
+        else omap (fun s2 => Some (dep_order_src false SAME false false false s2)) (subck (dep_bound t) o)).
+Proof. exact dep_order_decides. Qed.
+Print Assumptions C12_leaf_dep_hook.
